@@ -298,11 +298,15 @@ class Server(base_server.BaseServer):
                                     self.sockets[sid].closed:
                                 del self.sockets[sid]
         elif method == 'POST':
-            if sid is None or sid not in self.sockets:
+            try:
+                socket = self._get_socket(sid)
+            except KeyError:
+                # unknown session, or one that is already disconnected
+                socket = None
+            if socket is None:
                 self._log_error_once(f'Invalid session {sid}', 'bad-sid')
                 r = self._bad_request(f'Invalid session {sid}')
             else:
-                socket = self._get_socket(sid)
                 try:
                     socket.handle_post_request(environ)
                     r = self._ok(jsonp_index=jsonp_index)
